@@ -25,7 +25,7 @@ ASSUMPTIONS = [
     "generic theorems: Q = dG (Ext.pubPoint), the square root and base64.b64decode are parameters with their contracts as "
     "hypotheses; all_round_trips_model discharges them on the composed model (C07 via GroupInterface with the base-point "
     "order checked by the kernel, C15.sqrt_spec, and the proved inverse property of the model of CPython's lenient "
-    "decoder), leaving only: p and n prime for the curves of the table",
+    "decoder); p and n of every row of the table are proved prime from kernel-checked certificates (Props/NamedPrimes, UncondC09)",
     "the real base64 module is an external function: the correspondence compares the decoder model with it on ~6000 "
     "strings per run, the search compares to_pem with an independent RFC 7468 armour",
     "DER primitive round trips are C11's theorems (Proofs/Der*.lean)",
